@@ -22,8 +22,8 @@ func historyOracle(cfg *config) ([]failure, []string, map[string]interface{}) {
 	var infra []string
 	var fails []failure
 	v := cfg.variants[0]
-	runs := 48
-	shuffles := 2
+	runs := 96
+	shuffles := 3
 	if cfg.tier == "thorough" {
 		runs = 400
 		shuffles = 4
